@@ -10,6 +10,9 @@ XNoSuffix == <<97, 95>>              \* a_    (empty suffix)
 \* identifiers in the form the function must accept
 HeadsCanon == {HNone, HA, HAB, HUU}
 NumsCanon == {0, 1, 2, 3, 5, 9999, 10000}
+\* thorough tier, collections of <= 4
+HeadsCanon4 == {HNone, HA, HAB}
+NumsCanon4 == {1, 2, 3, 5, 9999, 10000}
 \* every printed width, empty prefix included
 HeadsAll == {HNone, HEmpty, HA}
 NumsAll == {1, 2, 9, 10, 99999}
